@@ -71,7 +71,9 @@ func newEpWorld(scratch string, n int) (*epWorld, error) {
 	e.VerifSetRandStrGen(func() string { return w.nextId })
 	w.repo = e
 	for i := 0; i < n; i++ {
-		w.cl = append(w.cl, &epClient{gate: gatedrv.NewGate(), state: "idle"})
+		g := gatedrv.NewGate()
+		g.ParkAll = true
+		w.cl = append(w.cl, &epClient{gate: g, state: "idle"})
 	}
 	w.closeFn = func() {
 		client.Close()
@@ -89,6 +91,12 @@ func (w *epWorld) wait(c *epClient) string {
 		if why == "miss" {
 			c.state = "cls"
 			return "miss"
+		}
+		if why == "extra" {
+			// a statement the protocol does not have (e.g. read-then-write): continued by the next `stmt` action of
+			// this client, after whatever the other clients do in between
+			c.state = "stmt"
+			return "extra"
 		}
 		c.state = "stmt" // first statement of a call, or of the next iteration of MarkAsDone's loop
 		return "parked"
@@ -211,7 +219,7 @@ func (w *epWorld) stmt(ci int) (string, bool) {
 	case "stmt":
 		c.gate.Release <- struct{}{}
 		switch r := w.wait(c); r {
-		case "miss", "fin":
+		case "miss", "fin", "extra":
 			return r, true
 		default:
 			return "unexpected-" + r, true
@@ -228,8 +236,8 @@ func (w *epWorld) cls(ci int, now time.Time) (string, bool) {
 	w.clk.SetRaw(now) // read again by the next iteration of MarkAsDone's loop, if there is one
 	c.gate.Release <- struct{}{}
 	switch r := w.wait(c); r {
-	case "fin":
-		return "fin", true
+	case "fin", "extra":
+		return r, true
 	case "parked":
 		return "retry", true
 	default:
